@@ -45,6 +45,9 @@ type Instr struct {
 type Equ struct {
 	Name string
 	E    Expr
+	// JoinPrev: when this definition directly follows another EQU item, it is written on the SAME line ("a b equ 3"
+	// defines both names); it must then have the same expression as that item
+	JoinPrev bool
 }
 
 // For is a FOR/ROF block.  Labels are written before the counter name.
@@ -129,7 +132,7 @@ func substItem(it Item, name string, v int) Item {
 		}
 		return &n
 	case *Equ:
-		return &Equ{x.Name, substExpr(x.E, name, v)}
+		return &Equ{Name: x.Name, E: substExpr(x.E, name, v), JoinPrev: x.JoinPrev}
 	case *Org:
 		return &Org{substExpr(x.E, name, v)}
 	}
